@@ -15,6 +15,7 @@ pub fn check(tier: Tier) -> Check {
         tier.pick(45, 600),
     )];
     Check {
+        also_rel: false,
         property: "C12",
         level: "exploration",
         rule: "all request kinds (publish QoS 0/1/2 with payload 0..max and topic 1..3 bytes, subscribe / unsubscribe with 1-2 filters and 0-1 user property, ping, disconnect with / without reason string) x M in {L-1, L, L+1, 1, 2^32-1, absent} x Receive Maximum in {1, absent}, L computed by the reference encoder; followed by a QoS 1 publish, its PUBACK, an accepted subscribe, and an inbound PUBLISH naming the rejected subscription's would-be identifier; non-trivial = a request was refused for size".into(),
